@@ -167,6 +167,9 @@ Proof.
 Qed.
 Definition tqdim (a : tq) : uvec := match a with TConst => uzero | TQ q => qdim q end.
 
+(* outcome of ExprDomain.as_quantity(name): builds the class of a quantity, returns self, or raises *)
+Inductive asres := AsQ (q : quantity) | AsSelf (* dispatches to as_expr() *) | AsError.
+
 (* ---- what the translator extracts from the sources ------------------------- *)
 Record tables := {
   mul_tab : list (tq * tq * tq);                 (* Expr._mul_mapping in source order *)
@@ -193,6 +196,8 @@ Record tables := {
   add_keeps_units : bool;
   (* does TimeDomainExpression.FT restore the scaled units after result(var)/expand/simplify *)
   ft_keeps_units : bool;
+  asq : quantity -> asres;                       (* ExprDomain.as_quantity dispatch *)
+  as_expr_cls : domain -> quantity -> option (domain * quantity);   (* class built by as_expr(), None = self *)
   sites : list (domain * domain * uvec);         (* change(..., units_scale=...) call sites *)
   flag_reads : list (uflag * readsite)
 }.
